@@ -297,6 +297,29 @@ func (o *caseOracle) afterClose(c int, post snapshot, in *instance) {
 	o.common(post)
 }
 
+// afterQuiet: an event that must not touch any session (an interleaved frame on a streaming
+// connection).
+func (o *caseOracle) afterQuiet(what string, post snapshot, in *instance) {
+	pre := o.prev
+	defer func() { o.prev = post }()
+	if in.hang != "" {
+		o.violate("no sequence hangs the server", "hang", in.hang)
+		in.hang = ""
+	}
+	if in.extraResp != "" {
+		o.violate("exactly one response per request", "extra-response", in.extraResp)
+		in.extraResp = ""
+	}
+	for _, ps := range pre.sess {
+		qs, ok := findSess(post, ps.idx)
+		if !ok || qs.state != ps.state {
+			o.violate("state == RFC prediction", "bystander-moved",
+				fmt.Sprintf("session %d (%s) changed or ended on a %s that kept its connection open", ps.idx, ps.state, what))
+		}
+	}
+	o.common(post)
+}
+
 func (o *caseOracle) common(post snapshot) {
 	if post.dblClose > 0 {
 		o.violate("a session ends exactly once", "closed-twice", "OnSessionClose was called more than once for a session")
